@@ -30,11 +30,11 @@ SPEC = dict(
     lean_modules=["Ecal.Props.C19"],
     shards=16,
     extract=extract,
-    rule=("cases = (bridged function, mode, argument vector): ~63 synthetic Go functions wrapped with "
+    rule=("cases = (bridged function, mode, argument vector): ~69 synthetic Go functions wrapped with "
           "stdlib.NewECALFunctionAdapter (every numeric parameter kind echoing its argument, string/bool/list/map, "
           "interface and foreign parameter types, several parameters, zero-arg constants of every result kind incl. "
           "2^53 / MaxUint64, trailing error nil/non-nil/not last, six panicking bodies, variadic of several kinds, "
-          "two non-functions) + every function of the generated stdlib (enumerated from GetStdlibSymbols) x all "
+          "defined types of primitive kind (time.Duration style) as parameter and result, two non-functions) + every function of the generated stdlib (enumerated from GetStdlibSymbols) x all "
           "argument vectors over a 27-value universe {null,true,false,0,-1,1,1.5,127,128,255,256,2^31,2^53,1e300,NaN,"
           "'','a','1',[],[1],{},{'a':1},an ECAL function,-129,-0.5,2^63,-Inf}: Run called directly for length <=2 "
           "(quick) / <=3 (thorough) exhaustively and longer sampled, through the interpreter and inside try for "
@@ -50,7 +50,7 @@ SPEC = dict(
     ],
     assumptions=[
         "int, uint and uintptr are 64 bits wide (amd64/arm64)",
-        "no bridged signature uses a named type of primitive kind (the harness refuses to encode one); none exists in the generated stdlib",
+        "no argument value has a defined type whose underlying type is []interface{} (reflect would accept it for a []interface{} parameter; ECAL programs cannot make one)",
         "fatal runtime errors that recover() cannot intercept (stack exhaustion, concurrent map writes, os.Exit, runtime.Goexit) and panics in goroutines started by the wrapped function are outside the property",
     ],
     decode=decode,
@@ -67,7 +67,8 @@ META = dict(
     level_note=("Trusted: Lean kernel + propext/Classical.choice/Quot.sound; the model of reflect's checks; the extractor; the harness. "
                 "Out-of-range float->int conversions are implementation-defined and only covered by totality. "
                 "Observation (not a violation of C19): parameters of interface type — including plain interface{} — reject every argument, "
-                "and a variadic ...interface{} function accepts at most one variadic argument (NumIn counts the slice once)."),
+                "a variadic ...interface{} function (the shape of plugin functions) accepts at most one variadic argument (NumIn counts the slice once), "
+                "and a parameter of a defined numeric type (time.Duration) never accepts a number — all three answered with an error, proved as theorems."),
 )
 
 
